@@ -87,12 +87,28 @@ Definition sign_mask (len : nat) : N :=
   else if (64 <=? len - 2)%nat then 0
   else (2 * 2 ^ N.of_nat (len - 2)) mod two64.
 
-Definition get_s (buf : list N) (pos len : nat) : res Z :=
-  neg <- get_u buf pos 1 ;;
-  uval <- get_u buf pos len ;;
+(* GetBitsAsInt64, parametrised by the unsigned reader it calls twice *)
+Definition get_s_gen (g : list N -> nat -> nat -> res N) (buf : list N) (pos len : nat) : res Z :=
+  neg <- g buf pos 1%nat ;;
+  uval <- g buf pos len ;;
   if neg =? 1 then
     let mask := sign_mask len in
     let top := to_int64 (N.land uval mask) in
     let low := to_int64 (N.land uval (N.lxor mask (two64 - 1))) in
     Ok (wrap_int64 (wrap_int64 (-1 * top) + low))
   else Ok (to_int64 uval).
+
+Definition get_s (buf : list N) (pos len : nat) : res Z := get_s_gen get_u buf pos len.
+
+(* The same two functions computed a byte window at a time instead of one bit at a time.
+   They are proved equal to get_u / get_s for every input (BitsProofs.getu_eq, gets_eq) and
+   exist only so that the extracted model runs in linear time on long messages. *)
+Definition getu (buf : list N) (pos len : nat) : res N :=
+  if (pos + len <=? 8 * length buf)%nat then
+    let q := (pos / 8)%nat in
+    let r := (pos mod 8)%nat in
+    let window := firstn (S (S (len / 8))) (skipn q buf) in
+    Ok (N_of_bits (slice (bits_of window) r len) mod two64)
+  else get_u buf pos len.
+
+Definition gets (buf : list N) (pos len : nat) : res Z := get_s_gen getu buf pos len.
